@@ -73,7 +73,10 @@ def head_cols(r):
 def aggregate(op, vals):
   if op in ('ArgMin', 'ArgMax'):
     pairs = [v for v in vals if v is not None and v[1] is not None]
-    if not pairs: return None
+    if not pairs:
+      # only null values: the documentation says nulls are ignored (-> null), SQLite returns the argument of such a row; under-specified, both admitted
+      nulls = [v[0] for v in vals if v is not None and v[1] is None]
+      return OneOf(frozenset([None] + nulls)) if nulls else None
     best = (min if op == 'ArgMin' else max)(p[1] for p in pairs)
     cands = frozenset(p[0] for p in pairs if p[1] == best)
     return next(iter(cands)) if len(cands) == 1 else OneOf(cands)
